@@ -620,12 +620,31 @@ func c13Confirm(r *mon.Run, t *chainlab.Tree, node *chainlab.TestNode, rng *rand
 		r.Violation("setup", fmt.Sprintf("node did not adopt a valid extension: %v", err), base, nil)
 		return
 	}
+	// variant: the caller only holds the unconfirmed part of the set (its
+	// parents travelled separately and got confirmed along the way)
+	outside := rng.IntN(3) == 0
+	if outside {
+		var rest []types.V2Transaction
+		for _, x := range set {
+			if !confirmed[x.ID()] {
+				rest = append(rest, x)
+			}
+		}
+		if len(rest) == 0 {
+			return
+		}
+		set = rest
+		r.Count("updates:confirmed-parents-outside-set", 1)
+	}
 	in := make([]types.V2Transaction, len(set))
 	for i := range set {
 		in[i] = set[i].DeepCopy()
 	}
 	cs := base
 	cs.From, cs.To, cs.Apply, cs.Set, cs.Mut = from.Idx, to.Idx, len(path), describeV2Set(set), "part-of-set-confirmed"
+	if outside {
+		cs.Mut = "confirmed-parents-outside-set"
+	}
 	var out []types.V2Transaction
 	var uerr error
 	if pn := mon.Guard(func() { out, uerr = cm.UpdateV2TransactionSet(in, from.L.State.Index, to.L.State.Index) }); pn != nil {
